@@ -216,7 +216,7 @@ def main(tier):
     oprog = tab_ops.load()
     fx = oprog.fn("GMGPolar::extrapolatedResidual")
     ck.analysed(fx)
-    for (nr, nt, nsc, nscc) in ((7, 8, 3, 2), (9, 4, 2, 1), (5, 8, 5, 3), (7, 8, 0, 0)):
+    for (nr, nt, nsc, nscc) in ((7, 8, 3, 2), (9, 4, 2, 1), (5, 8, 5, 3), (7, 8, 0, 0), (7, 12, 3, 2)):
         S = tab_ops.Setting(oprog, nr, nt, nsc, False)
         cg = symdom.coarse_of(S.grid, nscc)
         gm = tab_ops.make_gmgpolar(S, [symdom.make_level(0, S.grid), symdom.make_level(1, cg)])
